@@ -24,7 +24,7 @@ PROBES = ["pause_in_memory", "pause_via_json", "pause_chain", "pause_at_0", "pau
 
 
 def budget(tier):
-    return 1200 if tier == "quick" else 60000
+    return 2000 if tier == "quick" else 60000
 
 
 def gen(rng, tier):
@@ -37,7 +37,7 @@ def gen(rng, tier):
         focus["res_abs"] = True
     if rng.random() < 0.35:
         # candidates ranked by the main workplace (the default worker rule): IDs read from a file are equal, not identical, strings
-        focus.update(comps=True, facilities=True, mainwp=True, contention=rng.choice(["low", "mid"]), task_rules=False)
+        focus.update(comps=True, facilities=True, mainwp=True, contention=rng.choice(["low", "mid"]))
     spec = C.forward_spec(rng, tier, focus, max_time=rng.choice([10, 25, 40, 40]))
     if rng.random() < 0.12:
         # a sub-project task (automatic, advancing by another amount than 1 per step: its sub-project has another unit time)
